@@ -108,6 +108,14 @@ ConnectClause(R, X, r) ==
     ELSE IF R.circ /\ 2 * ShortestCoverLen(R, U) < R.L /\ Size(r) # ShortestCoverLen(R, U) THEN "shortest_arc_below_half"
     ELSE "ok"
 
+(* the smallest span: as the connect-relation, but the shortest covering arc on a ring whatever its length (where several
+   arcs are shortest any of them; all have that size).  For statements that say "the smallest span covering ..." *)
+SmallestSpanClause(R, X, r) ==
+    LET U == FootprintOfAll(R, X) IN
+    IF ConnectClause(R, X, r) # "ok" THEN ConnectClause(R, X, r)
+    ELSE IF R.circ /\ Size(r) # ShortestCoverLen(R, U) THEN "smallest_span_on_a_ring"
+    ELSE "ok"
+
 (* extend: bases within d of either outer end are added, clipped on a line, wrapped on a ring;
    interior gaps (introns) may stay gaps *)
 ExtendMust(R, loc, d) ==
